@@ -1,6 +1,7 @@
 import Driver.PM
 import Driver.PML
 import Driver.Expose
+import Driver.ExposeFull
 import Driver.Ports
 import Driver.Outline
 import Driver.Fault
@@ -23,6 +24,7 @@ def main (args : List String) : IO UInt32 := do
   | ["pm"] => DrvPM.main; return 0
   | ["pml"] => DrvPML.main; return 0
   | ["expose"] => DrvExpose.main; return 0
+  | ["exposefull"] => DrvExposeFull.main; return 0
   | ["ports"] => DrvPorts.main; return 0
   | ["outline"] => DrvOutline.main; return 0
   | ["fault"] => DrvFault.main; return 0
@@ -39,4 +41,4 @@ def main (args : List String) : IO UInt32 := do
   | ["procstack"] => DrvProcStack.main; return 0
   | ["comms"] => DrvComms.main; return 0
   | ["status"] => DrvStatus.main; return 0
-  | _ => IO.eprintln "usage: pmodel <comms|expose|fault|faultrun|futures|launcher|outline|persist|persister|pm|pml|pmr|ports|portsout|procstack|restore|restoreplain|savable|status>"; return 2
+  | _ => IO.eprintln "usage: pmodel <comms|expose|exposefull|fault|faultrun|futures|launcher|outline|persist|persister|pm|pml|pmr|ports|portsout|procstack|restore|restoreplain|savable|status>"; return 2
